@@ -285,6 +285,21 @@ CORPUS = [
     # re-export onto a name the importing module already defines (fixed: silently unregistered)
     [("pkg", True, "class C:\n    def old(self): pass\nfrom ._b import C\n__all__=['C']\n", None),
      ("pkg._b", False, "class C:\n    def new(self): pass\n", "pkg")],
+    # the MIDDLE class of a hierarchy is re-exported: it is re-registered after its own subclass
+    [("pkg", True, "from ._b import Base\n__all__=['Base']\n", None),
+     ("pkg._b", False, "class Root(Exception):\n    def __init__(self, a): pass\nclass Base(Root):\n    pass\nclass Derived(Base):\n    pass\n", "pkg"),
+     ("pkg.c", False, "from pkg._b import Derived\nclass Leaf(Derived):\n    pass\n", "pkg")],
+    # ... and the same through an import cycle in which the subclass's module is analysed while the base's is in progress
+    [("pkg", True, "", None),
+     ("pkg.alpha", False, "from pkg import beta\nclass Root:\n    pass\nclass Base(Root):\n    pass\n", "pkg"),
+     ("pkg.beta", False, "from pkg import alpha\nclass Derived(alpha.Base):\n    pass\nclass Plain(Derived):\n    pass\n", "pkg")],
+    # a class holding a duplicate definition is itself defined twice / re-exported (full names of superseded members)
+    [("m", False, "class C:\n    def f(self): pass\n    def f(self): pass\nclass C:\n    def f(self): pass\n    def f(self): pass\n", None)],
+    [("pkg", True, "from pkg.sub import C\n__all__=['C']\n", None), ("pkg.sub", True, "from .impl import C\n__all__=['C']\n", "pkg"),
+     ("pkg.sub.impl", False, "class C:\n    def f(self): pass\n    def f(self): pass\n    class N:\n        x = 1\n        x = 2\n", "pkg.sub")],
+    # a nested module / class named like the single root
+    [("spam", True, "class spam:\n    pass\n", None), ("spam.spam", False, "def f(): pass\n", "spam"),
+     ("spam.eggs", True, "", "spam"), ("spam.eggs.spam", False, "class K: pass\n", "spam.eggs")],
 ]
 
 
